@@ -4,12 +4,104 @@ import json, os
 
 HERE = os.path.dirname(os.path.abspath(__file__))
 
-CHECKS = {
-    "C14": dict(
+CHECKS_C14 = dict(
         technique="runtime reference-model monitor: headers.Check and real preflights vs an executable transcription of the ACRH approval rule, exhaustive small-alphabet enumeration + PRNG structured inputs",
         text="Every execution of the real scanner (internal/headers.Check, and 1% of structured cases through NewMiddleware + preflight) is compared with a 30-line executable specification written from the property statement. All strings over {a,b,comma,SP,HTAB} up to length 10 (quick) / 12 (thorough), as one line and in every two-line split, against six name sets are enumerated completely; structured and window-edge inputs are PRNG-determined. Held on the executions listed in the evidence; not a proof for longer inputs or other alphabets.",
         note="trusts the specification S5 (DESIGN.md section 3) as the reading of the statement; Go runtime; the harness observes headers.Check through the same internal API the repository's tests use",
-        ref="4/C14"),
+        ref="4/C14")
+
+CHECKS = {
+    "C01": dict(
+        technique="runtime reference-model monitor: origins.Tree (ParsePattern+Insert+Contains) and GET responses vs an executable pattern-denotation oracle; exhaustive small lists + PRNG long lists; quiescent-point invariant on Elems()",
+        text="Every (pattern list, origin) verdict of the real radix tree - and of the public API on a slice of the lists - is compared with the denotation oracle S1 written from the statement. All ordered lists of length <= 2 over 192 (quick) / 660 (thorough) colliding patterns and all triples over 24/48-pattern cores are enumerated completely, with every near-miss probe of every member; long lists with permutations and duplications are PRNG-determined. Held on the executions counted in the evidence.",
+        note="trusts S1 (DESIGN.md 3) and that universe patterns are valid by construction; observes the tree through the internal API the repository's own tests use",
+        ref="4/C01"),
+    "C02": dict(
+        technique="runtime differential monitor: executable Fetch browser model run against the real middleware vs the configuration-meaning oracle",
+        text="For every configuration of a 20k-element product and every browser intent cell (origin class x 14 method spellings x 32 header subsets x credentials x PNA x debug x tolerated ACRH perturbation) the end-to-end verdict of a transcription of Fetch's CORS-preflight fetch / CORS check over the real responses is compared with `permits` (the right-hand side of C02). Quick runs a stratified 1/97 slice, thorough the full product.",
+        note="trusts the transcription S3 of Fetch/PNA and the configuration-meaning oracle S2; both are independent of the implementation",
+        ref="4/C02"),
+    "C03": dict(
+        technique="online invariant monitor over every response to hostile requests (plus a -race/checkptr replay in the thorough tier)",
+        text="Every response produced for hostile requests (systematic malformed/near-miss Origin values derived from each configuration x request shapes, PRNG shapes and byte-level mutations) under the configuration product and both debug modes is checked against all header invariants of the statement; which raw Origin bytes serialise an allowed origin is decided by a string-level recogniser independent of the library's parser.",
+        note="trusts matchRaw (S1), which mirrors one documented leniency of the request-side parser (bracketed non-IP hosts)",
+        ref="4/C03"),
+    "C04": dict(
+        technique="runtime soundness monitor: labelled-atom configurations with known violations and arbitrary junk vs a recogniser of necessary conditions of the documented grammar",
+        text="Configurations that carry at least one documented violation by construction (every conditional/invalid atom in several list shapes under all 32 switch combinations and all three entry points; exhaustive integer windows; stratified multi-violation mixes) must be rejected with a nil *Middleware; whatever is accepted among junk configurations (fragment assembly, random bytes, mutations) must satisfy necessary conditions of the documented grammar.",
+        note="trusts the atom labels (ground truth by construction) and the junk recogniser, which tolerates the undocumented grey zones",
+        ref="4/C04"),
+    "C05": dict(
+        technique="runtime reference-model monitor: error trees (cfgerrors.All, type switches) vs expected violation multisets computed from labelled atoms",
+        text="Both directions of the validation spec S4: violation-free configurations must be accepted; otherwise the leaves of the returned error must be exactly (multiplicity rule) the expected (type, Value, Reason/Type/bounds) records, non-nil pointers to exported types with the `cors: ` prefix. Exhaustive single-atom sweeps under all switch combinations, all 128 subsets of violated fields, stratified 0..12 simultaneous violations.",
+        note="trusts the atom labels and S4's reading of the Config/ExtraConfig/cfgerrors documentation; Reason not pinned between invalid|prohibited for pattern syntax defects",
+        ref="4/C05"),
+    "C06": dict(
+        technique="metamorphic runtime monitor: four-way response equality over configuration-derived request suites, Config() fixpoint",
+        text="For valid configurations (C02 product + enriched generator: IP literals, trailing dots, subsuming/duplicate patterns, `*` mixes, max-age -1/0, status 204/200/299) the answers of New(c), New(*Config()), zero-value Reconfigure(&c) and before/after m.Reconfigure(m.Config()) to ~100 derived requests in both debug modes must be identical, Reconfigure(Config()) must succeed and Config() must be a fixpoint after one round trip.",
+        note="trusts that generated configurations are valid by construction and that the derived suite shows every observable aspect",
+        ref="4/C06"),
+    "C07": dict(
+        technique="race detector + porcupine linearizability checking of recorded client-boundary histories + deterministic schedule-point injection (ResponseWriter/handler hooks and lock-boundary yield points generated from the current source)",
+        text="M-inject runs every (start state, outer operation, inner operation sequence) at every schedule point of the outer operation (about 18k mini-histories); M-lin records stress histories (8 clients x 25 ops, GOMAXPROCS 2/4/16, three yield-hook profiles) under -race; all histories are checked by porcupine against the sequential (configuration, debug) model with golden responses; race reports with library frames are violations.",
+        note="trusts porcupine v1.3.0, the Go race detector and the S6 model; interleavings strictly inside a critical section are not produced",
+        ref="4/C07"),
+    "C08": dict(
+        technique="before/after runtime monitor over request suites, Config() and debug mode around rejected Reconfigure calls",
+        text="For prior states (passthrough by zero value and by Reconfigure(nil); configured x debug) and invalid configurations with 1..12 violations (incl. invalid only in the first or only in the last validated field, valid fields differing from the state in every aspect) the answers to the union of both suites, Config() and the answers after a later no-op round trip must be unchanged and the call must return an error.",
+        note="trusts that the invalid configurations are invalid by construction (S4)",
+        ref="4/C08"),
+    "C09": dict(
+        technique="runtime reference-model monitor: exhaustive operation histories vs the documented debug state machine, observed through probes after every step; debug-invariance pair monitor",
+        text="All histories up to length 5 (quick) / 7 (thorough) over six operations from NewMiddleware(A) and the zero value, state observed after every step (all 5 states and 30 transitions must be visited); plus debug off/on response pairs over the configuration product: only failing preflights may differ, and only by an ok status and a subset of the diagnostic headers, without turning the failure into a grant.",
+        note="trusts S6 and the observability of (configuration, debug) through the chosen probes",
+        ref="4/C09"),
+    "C10": dict(
+        technique="2-safety pair monitor: second requests agreeing on the Vary-listed headers of the first response must be answered identically",
+        text="For the configuration product x debug x pre-set Vary values x 20 first-request shapes, every header not listed in the first response's Vary is replaced by every value of its pool (systematically) and in PRNG combinations; status, all headers and body must be identical and pre-set Vary values preserved.",
+        note="assumes a cache keys on method + Vary-listed request headers as value lists; Vary-listed headers are kept byte-identical in the second request",
+        ref="4/C10"),
+    "C11": dict(
+        technique="differential runtime monitor against a reference run of the same chain without the CORS middleware + identity/count spy",
+        text="The preflight predicate boundary (10 method tokens x 5 Origin shapes x 5 ACRM shapes) is enumerated completely for each visited configuration, passthrough middlewares included, with random handler programs (status, body, Set/Add/Del of Vary/CORS/other headers before and after WriteHeader) and pre-set headers: preflights never reach the handler and have no body; everything else reaches it exactly once with the same request and writer, and the client gets exactly the handler's program applied to what it found.",
+        note="trusts the reference run as the definition of the handler's own output",
+        ref="4/C11"),
+    "C12": dict(
+        technique="golden-comparison runtime monitor after every adversarial mutation step; race detector on shared middlewares",
+        text="Worlds of three live middlewares (two sharing one Config value) are subjected to histories of adversarial steps (poisoning Config arguments, Config() results, and - from the wrapped handler - every reachable request/response header slice in place and within capacity; interleaved ordinary requests; Reconfigure with later-poisoned equal configs); after every step probes must equal the answers of a fresh untouched middleware. A -race phase hammers shared middlewares from 16 goroutines.",
+        note="the wrapped handler is the only in-request adversary (what a custom ResponseWriter could reach on the preflight path is outside the statement)",
+        ref="4/C12"),
+    "C13": dict(
+        technique="grammar-based generation with ground truth by construction, monitored through NewMiddleware, origins.ParsePattern and a self-match GET",
+        text="Valid patterns are generated from the documented grammar (every domain length 1..253, label 1..63, scheme 1..64, ports, IPv4, RFC 5952 IPv6 from an independent formatter, `*.`, trailing dot, all maxima at once) and must be accepted and self-match; every documented defect is applied to every generated shape and must be rejected with an UnacceptableOriginPatternError naming the string.",
+        note="grey zones listed in the property are not generated",
+        ref="4/C13"),
+    "C14": CHECKS_C14,
+    "C15": dict(
+        technique="metamorphic runtime monitor: permuted / duplicated / case-varied twin configurations must answer identically",
+        text="For each visited valid configuration all permutations of each list up to length 4 (PRNG beyond), duplications, header-name case flips, normalisable method spellings and added safelisted names yield twins that must be accepted and answer the derived request suite identically in both debug modes.",
+        note="Config() values are deliberately not compared (as the property says)",
+        ref="4/C15"),
+    "C16": dict(
+        technique="online invariant monitor with canary taint over debug-off preflight responses",
+        text="Every discrete allow-list of every product configuration is given a canary token no request supplies; over systematic and hostile preflights failing at each step and succeeding, failures must carry no Access-Control-* header and one non-ok status per configuration, successes may only name `*`, `true`, the max-age and request-supplied tokens, and no canary may appear anywhere.",
+        note="success is read off the response (ok status and ACAO present)",
+        ref="4/C16"),
+    "C17": dict(
+        technique="recover()-based crash monitor + child-process death detection; -race/checkptr replay and Go native coverage-guided fuzzing in the thorough tier",
+        text="Every call into the library (NewMiddleware, Reconfigure, Config, SetDebug, cfgerrors.All, ServeHTTP) is guarded; inputs: every byte value at every position of seed patterns/methods/header names and of Origin/ACRM/ACRH/ACRPN values, length extremes to 1 MiB, junk and labelled configurations, boundary integers, hostile request shapes (zero-valued keys, nil header map), deep and wide join trees.",
+        note="a fatal error that recover() cannot see kills the child; the driver reports it with the last batch marker",
+        ref="4/C17"),
+    "C18": dict(
+        technique="runtime allocation accounting (testing.AllocsPerRun) over a size grid on the plain build",
+        text="For 7 configuration kinds x debug x 17 request kinds with one attacker-sized field each, allocations per ServeHTTP are measured at sizes up to 10^5 (quick) / 10^6 bytes and 10^5 elements (thorough): at most 10 everywhere and no more than 2 above the maximum seen at sizes <= 100.",
+        note="assumes the harness's reusable writer, no-op handler and pre-built request allocate nothing; counts allocations, not bytes",
+        ref="4/C18"),
+    "C19": dict(
+        technique="runtime reference-model monitor: cfgerrors.All vs an independent flattening of join trees built by construction, every break position",
+        text="All plane join trees with <= 6 (quick) / 7 (thorough) leaves and depth <= 3/4 (plus nil-interleaved variants) x every break position, by calling the iter.Seq directly with a counting yield and by for-range+break; PRNG trees to 10^4 leaves / depth 10^4; for middleware errors the yielded count must equal the leaf count and lie within the expected number of violations.",
+        note="leaves carry unique ids; order is unspecified, so multisets are compared",
+        ref="4/C19"),
 }
 
 PENDING = {}
